@@ -361,13 +361,21 @@ func probeExcludedSizes(o *common.Options, rep *common.Report) {
 }
 
 // exhaustive: all sequences of `add` of the given depth over a boundary alphabet, handed to f in chunks.
-func exhaustive(size uint64, al []uint64, depth int, f func([]Case) error) error {
+func exhaustive(size uint64, al []uint64, depth int, withReset bool, f func([]Case) error) error {
 	var res []Case
 	idx := make([]int, depth)
+	nLetters := len(al)
+	if withReset {
+		nLetters++ // the extra letter is the `reset` operation
+	}
 	for {
 		c := Case{Size: size}
 		for _, i := range idx {
-			c.Ops = append(c.Ops, Op{Op: "add", C: al[i]})
+			if i == len(al) {
+				c.Ops = append(c.Ops, Op{Op: "reset"})
+			} else {
+				c.Ops = append(c.Ops, Op{Op: "add", C: al[i]})
+			}
 		}
 		res = append(res, c)
 		if len(res) == 20000 {
@@ -379,7 +387,7 @@ func exhaustive(size uint64, al []uint64, depth int, f func([]Case) error) error
 		k := depth - 1
 		for k >= 0 {
 			idx[k]++
-			if idx[k] < len(al) {
+			if idx[k] < nLetters {
 				break
 			}
 			idx[k] = 0
@@ -394,40 +402,93 @@ func exhaustive(size uint64, al []uint64, depth int, f func([]Case) error) error
 	}
 }
 
-// exhaustivePar: the driver runs of the chunks of one exhaustive enumeration go through a small worker pool;
-// the chunks are judged in order.
-func exhaustivePar(size uint64, al []uint64, depth int, o *common.Options, rep *common.Report) error {
+// exhaustivePar: the chunks of one exhaustive enumeration go through a small worker pool (driver run + judging);
+// only the accounting is sequential. Exhaustive sequences are pairwise distinct by construction, so their
+// distinct count is accumulated in exhDistinct (added to the report at the end) instead of storing millions of
+// signatures; a sequence that a random case already produced (randomSigs) is not counted again. Any case that
+// fails goes through the ordinary path (shrinking, reporting).
+var (
+	exhDistinct int
+	randomSigs  = map[string]bool{}
+)
+
+func exhaustivePar(size uint64, al []uint64, depth int, withReset bool, o *common.Options, rep *common.Report) error {
+	type verdict struct {
+		nontrivial, bad bool
+	}
 	type job struct {
 		cases []Case
-		model []string
+		v     []verdict
 		err   error
 		done  chan struct{}
 	}
-	sem := make(chan struct{}, 6)
+	sem := make(chan struct{}, 8)
 	var jobs []*job
-	err := exhaustive(size, al, depth, func(cs []Case) error {
+	err := exhaustive(size, al, depth, withReset, func(cs []Case) error {
 		j := &job{cases: append([]Case(nil), cs...), done: make(chan struct{})}
 		jobs = append(jobs, j)
 		sem <- struct{}{}
 		go func() {
-			j.model, j.err = modelOf(j.cases, o)
-			<-sem
-			close(j.done)
+			defer func() { <-sem; close(j.done) }()
+			model, err := modelOf(j.cases, o)
+			if err != nil {
+				j.err = err
+				return
+			}
+			j.v = make([]verdict, len(j.cases))
+			pos := 0
+			for i, c := range j.cases {
+				n := len(c.Ops) + 1
+				var mo []string
+				if model != nil {
+					mo = model[pos : pos+n]
+				}
+				pos += n
+				impl, pan, div, key, _ := judge(c, mo)
+				acc, rej := 0, 0
+				for _, x := range impl {
+					if x == "1" {
+						acc++
+					} else if x == "0" {
+						rej++
+					}
+				}
+				j.v[i] = verdict{nontrivial: acc > 0 && rej > 0, bad: pan != nil || div || key != ""}
+			}
 		}()
 		return nil
 	})
 	if err != nil {
 		return err
 	}
+	bucket := "swf:" + sizeBucket(size)
+	opsKey := fmt.Sprintf("swf:ops<=%d", (depth+9)/10*10)
 	for _, j := range jobs {
 		<-j.done
 		if j.err != nil {
 			return j.err
 		}
-		if err := consume(j.cases, j.model, o, rep); err != nil {
-			return err
+		for i, c := range j.cases {
+			if j.v[i].bad {
+				if err := evalCases([]Case{c}, o, rep); err != nil {
+					return err
+				}
+				continue
+			}
+			rep.Evaluations++
+			rep.TracesValidated++
+			rep.Distribution[bucket]++
+			rep.Distribution[opsKey]++
+			if withReset {
+				rep.Distribution["swf:exhaustive-with-reset"]++
+			} else {
+				rep.Distribution["swf:exhaustive"]++
+			}
+			if j.v[i].nontrivial && !randomSigs[sig(c)] {
+				exhDistinct++
+			}
 		}
-		j.cases, j.model = nil, nil
+		j.cases, j.v = nil, nil
 	}
 	return nil
 }
@@ -473,6 +534,9 @@ func realMain(o *common.Options, t *testing.T) int {
 		var cases []Case
 		for i := 0; i < n; i++ {
 			cases = append(cases, genCase(r.Fork(uint64(i)), 40))
+			if last := cases[len(cases)-1]; len(last.Ops) <= 6 {
+				randomSigs[sig(last)] = true
+			}
 			if len(cases) == 2000 {
 				if err = evalCases(cases, o, rep); err != nil {
 					break
@@ -496,7 +560,15 @@ func realMain(o *common.Options, t *testing.T) int {
 				ring <<= 1
 			}
 			al := []uint64{0, 63, 64, size - 1, size, size + 64, ring - 1, ring + size}
-			err = exhaustivePar(size, al, depth, o, rep)
+			if o.Thorough() { // the 10-letter alphabet of the design
+				al = append(al, 65, ^uint64(0))
+			}
+			err = exhaustivePar(size, al, depth, false, o, rep)
+			if err == nil { // `reset` joins the op set at depth <= 4
+				for d := 2; d <= 4 && err == nil; d++ {
+					err = exhaustivePar(size, al, d, true, o, rep)
+				}
+			}
 		}
 		if err == nil {
 			probeExcludedSizes(o, rep)
@@ -524,6 +596,7 @@ func realMain(o *common.Options, t *testing.T) int {
 		rep.Write(o.Out)
 		return 3
 	}
+	rep.DistinctNontrivial += exhDistinct
 	if err := rep.Write(o.Out); err != nil {
 		fmt.Fprintln(os.Stderr, err)
 		return 3
